@@ -14,11 +14,12 @@ from .common import f2h, h2f
 
 RULE = ("scenes from the seed (generator of C10 with boundary pairs pml, periodic, bloch with zero wave vector, pec, pmc, "
         "none, mixed): 4..6 cells per axis, uniform / non-uniform grid, 1..2 sources of every kind (UniformPlaneSource, "
-        "GaussianPlaneSource, PointDipoleSource electric/magnetic), detectors of every kind (Field, Phasor, Energy, "
+        "GaussianPlaneSource, PointDipoleSource electric/magnetic, and the hard HardConstantAmplitudePlanceSource from "
+        "fdtdx.objects.sources.source — always present in the first quick scene), detectors of every kind (Field, Phasor, Energy, "
         "PoyntingFlux, ClosedSurfacePoyntingFlux; reduced / full / co-located or not), random inv_eps, optional sigma_E, "
         "6..12 steps. Property oracle per scene: run_fdtd on the real placement and on the use_complex_fields=True placement: "
         "field dtype is complex, Re(fields) equal (1e-9 relative), |Im(fields)| <= 1e-12 * scale, every detector state "
-        "equal (1e-9) with zero imaginary part. K per scene: forward() x1 from a random real state on both placements vs "
+        "(incl. Energy and PoyntingFlux, always present) equal (1e-9) with zero imaginary part. K per scene: forward() x1 from a random real state on both placements vs "
         "model `fwd r` / `fwd c`; forward() from a complex state on the complex placement vs `fwd c`; direct calls of "
         "_tfsf_inject_E_face/_tfsf_inject_H_face (real fields/real profile = complex fields/real profile = real fields/"
         "complex-typed profile with zero imaginary part; genuinely complex profile vs model incidentComponent). "
@@ -42,11 +43,14 @@ def gen_case(rng, thorough, force=None):
     c["faces"], c["shape"] = faces, shape
     if c["widths"] is not None:
         c["widths"] = [[50e-9 * rng.uniform(0.7, 1.5) for _ in range(n)] for n in shape]
+    for s in c["sources"]:
+        if s["kind"] in ("uniform", "gauss") and rng.chance(0.3):
+            s["kind"] = "hard"      # HardConstantAmplitudePlanceSource: overwrites the field on its plane
     c["amp"] = [rng.choice([-1.0, 1.0]) * rng.uniform(0.5, 2.0) for _ in c["sources"]]
     if force:
         c.update(force)
     if len(c["amp"]) != len(c["sources"]):
-        c["amp"] = [1.3, -0.7][:len(c["sources"])]
+        c["amp"] = [1.3, -0.7, 0.9][:len(c["sources"])]
     for s in c["sources"]:
         s["pos"] = [int(p) % n for p, n in zip(s["pos"], c["shape"])]
     return L._fix_positions(c)
@@ -125,6 +129,12 @@ def forward_parts(ctx, c, scr, scc):
     jEc, jHc = L.probe_sources(scc, objs_c, t, inv_eps, sig_e, c["shape"])
     detail = cmp_complex_real("probed source term jE", jEc, jE) or cmp_complex_real("probed source term jH", jHc, jH)
     inv_mu = np.asarray(scr.arrays.inv_permeabilities, dtype=np.float64)
+    # property on forward(): with active boundaries, 2 steps
+    r2 = L._fwd(scr, objs_r, Y.with_state(scr, E0, H0, inv_eps=inv_eps, sig_e=sig_e), t, min(2, c["steps"] - t), sim=True)
+    c2 = L._fwd(scc, objs_c, Y.with_state(scc, E0, H0, inv_eps=inv_eps, sig_e=sig_e), t, min(2, c["steps"] - t), sim=True)
+    detail = detail or cmp_complex_real("forward() x2 E", c2[0], r2[0]) or cmp_complex_real("forward() x2 H", c2[1], r2[1])
+    if any(s["kind"] == "hard" for s in c["sources"]):
+        return detail      # a hard source overwrites fields: not an additive term, no model comparison
     # real placement vs real model
     rE, rH = L._fwd(scr, objs_r, Y.with_state(scr, E0, H0, inv_eps=inv_eps, sig_e=sig_e), t, 1, sim=False)
     mE, mH = Y.decode_fields(ctx.driver.ask(Y.request(scr, "fwd", E0, H0, inv_eps, inv_mu, sig_e, None, (jE, jH), 1)), c["shape"])
@@ -139,10 +149,6 @@ def forward_parts(ctx, c, scr, scc):
     gE, gH = L._fwd(scc, objs_c, Y.with_state(scc, Ec, Hc, inv_eps=inv_eps, sig_e=sig_e), t, 1, sim=False)
     mgE, mgH = Y.decode_fields(ctx.driver.ask(Y.request(scc, "fwd", Ec, Hc, inv_eps, inv_mu, sig_e, None, (jE, jH), 1, is_complex=True)), c["shape"], True)
     ctx.expect_close("forward complex storage (complex state)", c, np.concatenate([gE.ravel(), gH.ravel()]), np.concatenate([mgE.ravel(), mgH.ravel()]))
-    # property on forward(): with active boundaries, 2 steps
-    r2 = L._fwd(scr, objs_r, Y.with_state(scr, E0, H0, inv_eps=inv_eps, sig_e=sig_e), t, min(2, c["steps"] - t), sim=True)
-    c2 = L._fwd(scc, objs_c, Y.with_state(scc, E0, H0, inv_eps=inv_eps, sig_e=sig_e), t, min(2, c["steps"] - t), sim=True)
-    detail = detail or cmp_complex_real("forward() x2 E", c2[0], r2[0]) or cmp_complex_real("forward() x2 H", c2[1], r2[1])
     return detail
 
 
@@ -238,7 +244,8 @@ FORCED = [
     dict(shape=[5, 5, 8], pml_thickness=2, widths=None, steps=9, gradient=None,
          faces={"min_x": "periodic", "max_x": "periodic", "min_y": "bloch", "max_y": "bloch", "min_z": "pml", "max_z": "pml"},
          sources=[{"kind": "gauss", "axis": 2, "direction": "+", "profile": "pulse", "switch": "default", "pol": 0, "pos": [2, 2, 3]},
-                  {"kind": "dipole_m", "axis": 0, "direction": "+", "profile": "cw", "switch": "interval", "pol": 1, "pos": [1, 3, 4]}]),
+                  {"kind": "dipole_m", "axis": 0, "direction": "+", "profile": "cw", "switch": "interval", "pol": 1, "pos": [1, 3, 4]},
+                  {"kind": "hard", "axis": 2, "direction": "+", "profile": "cw", "switch": "default", "pol": 1, "pos": [2, 2, 5]}]),
     dict(shape=[4, 6, 5], pml_thickness=2, widths=None, steps=7, gradient="reversible", sig_e=True,
          faces={"min_x": "pec", "max_x": "pmc", "min_y": "pml", "max_y": "pec", "min_z": "pmc", "max_z": "pmc"},
          sources=[{"kind": "uniform", "axis": 1, "direction": "-", "profile": "cw", "switch": "start", "pol": 1, "pos": [1, 3, 2]},
